@@ -43,7 +43,7 @@ fn remap_uids(scn: &mut Scenario, removed_uid: u16, n_removed: u16) {
                 Op::Own { fault, .. } => fault,
                 _ => continue,
             };
-            if let Some(Fault::MatcherPanic { uid }) = fault {
+            if let Some(Fault::MatcherPanic { uid }) | Some(Fault::MatcherMustNotRun { uid }) = fault {
                 if *uid >= removed_uid && *uid < removed_uid + n_removed {
                     *fault = None;
                 } else if *uid >= removed_uid + n_removed {
